@@ -179,6 +179,9 @@ func capMismatch(ue *tglib.RanUeContext) string {
 	if int(cap.Len) != len(cap.Buffer) || len(cap.Buffer) < 2 {
 		return fmt.Sprintf("capability Len %d / buffer %x inconsistent", cap.Len, cap.Buffer)
 	}
+	if m := retainCheck("capability", cap.Buffer, ue.Supi); m != "" {
+		return "the capability IE handed out for an earlier UE changed: " + m
+	}
 	wantEA := byte(0x80) >> ue.CipheringAlg
 	wantIA := byte(0x80) >> ue.IntegrityAlg
 	if cap.Buffer[0] != wantEA || cap.Buffer[1] != wantIA {
